@@ -52,7 +52,7 @@ def tlc_workers():
     return int(os.environ.get("VERIF_TLC_WORKERS") or min(NCPU, 16))
 
 
-HEAP = os.environ.get("VERIF_TLC_HEAP") or "8g"
+HEAP = os.environ.get("VERIF_TLC_HEAP") or "3g"
 GUARD = {"on": False}     # RangeQuery keeps the slice size >= step (probed on the real code by probe_bigstep)
 STEPS_BIG = [18000, 21600]                                       # 5h 6h: only with the guard
 
